@@ -223,6 +223,17 @@ def clipWord (t : DType) (lo hi : Option Int) (w : Nat) : Nat :=
 def clipData (t : DType) (lo hi : Option Int) (rows : List (List Nat)) : List (List Nat) :=
   rows.map fun r => r.map (clipWord t lo hi)
 
+/-- `int64 → float64 → int64`: what `np.clip(x, -inf, inf).astype(int64)` did to a 64-bit integer at the pinned
+commit (round to nearest-even on 53 significant bits; the final cast of an out-of-range value is not modelled).
+Not used by the model of the repaired code; kept so that the finding is a theorem and for replay diagnostics. -/
+def roundF64 (n : Int) : Int :=
+  let a := n.natAbs
+  let e := (Nat.log2 a + 1) - 53
+  let q := a / 2 ^ e
+  let r := a % 2 ^ e
+  let q' := if 2 * r > 2 ^ e ∨ (2 * r = 2 ^ e ∧ q % 2 = 1) then q + 1 else q
+  if n < 0 then -((q' * 2 ^ e : Nat) : Int) else ((q' * 2 ^ e : Nat) : Int)
+
 /-! ## 3. external number text and conversions -/
 
 /-- what the code delegates to python / numpy for floating point numbers -/
